@@ -1056,6 +1056,57 @@ def o4_assembly(ctx):
         calls.append({"segs": segs, "smoothing": smoothing, "w": w})
         return functional(segs, smoothing, w)
     I.special[iwm.qualname] = mortar
+
+    # The same integral may be assembled from the two halves of integrate_with_mortar (one projection shared by several integrands):
+    #   compute_intersection(E1, E2, the caller's normal rule) -> opaque end values (xiA, xiB, g) of that pair, and
+    #   integrate_with_active_mortar(those end values in their order, |E1|, |E2|, integrand, smoothing) -> the same linear functional M[E1 E2 | .],
+    # which is what O4/T5-mortar-glue shows integrate_with_mortar(E1, E2, normal, integrand, smoothing) to be.  Whatever stands between the two calls
+    # (the overlap switch, helper functions) is interpreted; end values that are not the untouched results of ONE projection, or other lengths than
+    # those of its two segments, are not understood (ANALYSIS-INCOMPLETE).
+    ci = ctx.repo.find(f"{MC}:compute_intersection")
+    am = ctx.repo.find(f"{MC}:integrate_with_active_mortar")
+    projections = []
+
+    def bind(scope, args, kw):
+        ps = scope.params()
+        if len(args) > len(ps) or any(k not in ps for k in kw):
+            raise EvalError(f"{scope.shortname} is called with arguments that do not fit its parameters")
+        b = dict(zip(ps, args))
+        b.update(kw)
+        if any(p not in b for p in ps):
+            raise EvalError(f"an argument of {scope.shortname} is left to its default")
+        return [b[p] for p in ps]
+
+    def intersection(it, args, kw):
+        eA, eB, nrm = bind(ci, args, kw)
+        if nrm is not fnormal or not all(isinstance(e, Arr) and e.shape == (2, 2) for e in (eA, eB)):
+            raise EvalError("compute_intersection is not called with two segments and the caller's common-normal rule")
+        segs = tuple(tuple(node_of(e.data[2 * row], e.data[2 * row + 1]) for row in range(2)) for e in (eA, eB))
+        k = len(projections)
+        tok = tuple(sym_array(f"proj{k}.{nm}", (2,)) for nm in ("xiA", "xiB", "g"))
+        projections.append({"segs": segs, "edges": (eA, eB), "tok": tok})
+        return tok
+
+    def active(it, args, kw):
+        aXA, aXB, aG, aLA, aLB, aF, aS = bind(am, args, kw)
+        ends = [it.num(v) if isinstance(v, (Arr, Dual, int, float, F)) else None for v in (aXA, aXB, aG)]
+        hit = [p for p in projections if all(isinstance(e, Arr) and e.shape == (2,) and same_arr(e, t) for e, t in zip(ends, p["tok"]))]
+        if len(hit) != 1:
+            raise EvalError("integrate_with_active_mortar is reached with end values (xiA, xiB, g) that are not the three results, in their order, of one "
+                            "compute_intersection call of the assembly")
+        eA, eB = hit[0]["edges"]
+        length = lambda E: d_fun("sqrt", (E.data[0] - E.data[2]) * (E.data[0] - E.data[2]) + (E.data[1] - E.data[3]) * (E.data[1] - E.data[3]))
+        if not all(isinstance(v, (Arr, Dual)) for v in (aLA, aLB)) or judge(it.num(aLA), length(eA)) is not True or judge(it.num(aLB), length(eB)) is not True:
+            raise EvalError("the lengths handed to integrate_with_active_mortar are not those of the two intersected segments, in their order")
+        if not isinstance(aF, (Closure, PyFunc, S.Partial, S.VMap)) or aF is fnormal:
+            raise EvalError("the integrand handed to integrate_with_active_mortar is not a function")
+        smoothing = key_of(it.num(aS))
+        w = it.num(it.call(aF, [x1, x2, gp], {}))
+        calls.append({"segs": hit[0]["segs"], "smoothing": smoothing, "w": w})
+        return functional(hit[0]["segs"], smoothing, w)
+    if ci is not None and am is not None and len(ci.params()) == 3 and len(am.params()) == 7:
+        I.special[ci.qualname] = intersection
+        I.special[am.qualname] = active
     roles = {"coords": X, "disp": U, "a": int_array([list(s) for s in connsA]), "b": int_array([list(s) for s in connsB]),
              "neigh": int_array([list(s) for s in neigh]), "normal": fnormal, "integrand": fint}
     pats = (("coords", ("coord",)), ("disp", ("disp",)), ("a", ("connsa", "segmentsa", "segsa")), ("b", ("connsb", "segmentsb", "segsb")),
@@ -1184,6 +1235,12 @@ def o4_mortar(ctx):
 
         def roots(it, args, kw, rules_made=rules_made):
             n = it.as_int(args[0])
+            if len(args) != 1 or kw:
+                raise EvalError("roots_sh_legendre with more than the number of points")
+            # a pure function of the number of points: a second rule of the same size (a rule rebuilt by a property, by each helper object, ...) is the same rule
+            for (xi, w) in rules_made:
+                if len(xi) == n:
+                    return (Arr([atom(x) for x in xi], (n,)), Arr([atom(x) for x in w], (n,)))
             k = len(rules_made)
             xi = [f"gq{k}_{i}" for i in range(n)]
             w = [f"gw{k}_{i}" for i in range(n)]
@@ -1995,6 +2052,98 @@ def compute_normal_from_b(edgeA : jnp.array, edgeB : jnp.array) -> jnp.array:
 _B_NORMAL_FROM_B = _P_NORMAL_FROM_B.replace("return -compute_normal(edgeB)", "return compute_normal(edgeB)")
 
 
+# round 3: private helper CLASSES (a base class with a property and a class-level constant, a derived class whose __init__ calls the base's), the
+# vmap `out_axes` argument, and an assembly that projects a pair of segments ONCE and integrates both nodal integrands over that projection
+_P_MORTAR_OBJECTS = """
+class _LinearOverlapField:
+    gaussDegree = 2
+
+    def __init__(self, ends):
+        self.ends = ends
+
+    @property
+    def rule(self):
+        return QuadratureRule.create_quadrature_rule_1D(degree=self.gaussDegree)
+
+    def at_points(self):
+        return jax.vmap(eval_linear_field_on_edge, (None,0))(self.ends, self.rule.xigauss)
+
+
+class _OverlapMeasure(_LinearOverlapField):
+    def __init__(self, ends, length, smoothing, oriented):
+        _LinearOverlapField.__init__(self, ends)
+        self.length = length
+        self.smoothing = smoothing
+        self.oriented = oriented
+
+    def extent(self):
+        smoothed = smooth_linear(self.ends, self.smoothing)
+        d = smoothed[1] - smoothed[0]
+        return d if self.oriented else jnp.abs(d)
+
+    def weights(self):
+        return self.length * self.extent() * self.rule.wgauss
+
+
+def integrate_with_active_mortar(xiA, xiB, g, lengthA, lengthB, func_of_xiA_xiB_g, relativeSmoothingSize):
+    sideA = _OverlapMeasure(xiA, lengthA, relativeSmoothingSize, oriented=True)
+    sideB = _OverlapMeasure(ends=xiB, length=lengthB, smoothing=relativeSmoothingSize, oriented=False)
+    gap = _LinearOverlapField(g)
+    values = jax.vmap(func_of_xiA_xiB_g)(sideA.at_points(), sideB.at_points(), gap.at_points())
+    return jnp.dot(0.5*(sideA.weights() + sideB.weights()), values)
+"""
+
+_B_MORTAR_OBJECTS_ORIENTED_B = _P_MORTAR_OBJECTS.replace("smoothing=relativeSmoothingSize, oriented=False)", "smoothing=relativeSmoothingSize, oriented=True)")
+_B_MORTAR_OBJECTS_DEGREE = _P_MORTAR_OBJECTS.replace("    gaussDegree = 2", "    gaussDegree = 1")
+_B_MORTAR_OBJECTS_BASE_INIT = _P_MORTAR_OBJECTS.replace("        _LinearOverlapField.__init__(self, ends)", "        _LinearOverlapField.__init__(self, 1.0 - ends)")
+
+_P_MORTAR_OUT_AXES = """
+def integrate_with_active_mortar(xiA, xiB, g, lengthA, lengthB, func_of_xiA_xiB_g, relativeSmoothingSize):
+    edgeQuad = QuadratureRule.create_quadrature_rule_1D(degree=2)
+    ends = jnp.stack((xiA, xiB, g), axis=1)
+    atPoints = jax.vmap(eval_linear_field_on_edge, in_axes=(None,0), out_axes=-1)(ends, edgeQuad.xigauss)
+    smoothEnds = jax.vmap(smooth_linear, (1,None), 1)(ends[:,:2], relativeSmoothingSize)
+    dxiA, dxiB = smoothEnds[1] - smoothEnds[0]
+    weights = 0.5*(lengthA*dxiA + lengthB*jnp.abs(dxiB)) * edgeQuad.wgauss
+    return jnp.dot(weights, jax.vmap(func_of_xiA_xiB_g)(*atPoints))
+"""
+
+_B_MORTAR_OUT_AXES_SWAPPED = _P_MORTAR_OUT_AXES.replace("    dxiA, dxiB = smoothEnds[1] - smoothEnds[0]", "    dxiB, dxiA = smoothEnds[1] - smoothEnds[0]")
+_B_MORTAR_OUT_AXES_ROWS = _P_MORTAR_OUT_AXES.replace("jnp.stack((xiA, xiB, g), axis=1)", "jnp.stack((xiB, xiA, g), axis=1)")
+
+_P_ASSEMBLY_SHARED_PROJECTION = """
+def _integrate_projected(projection, edgeA, edgeB, func_of_xiA_xiB_g, relativeSmoothingSize):
+    xiA, xiB, g = projection
+    lengths = [jnp.linalg.norm(e[0] - e[1]) for e in (edgeA, edgeB)]
+    active = lambda : integrate_with_active_mortar(xiA, xiB, g, lengths[0], lengths[1], func_of_xiA_xiB_g, relativeSmoothingSize)
+    return jax.lax.switch(1*jnp.any(xiA==jnp.nan), [active, lambda : 0.0])
+
+
+def assembly_mortar_integral(coords, disp, segmentConnsA, segmentConnsB, neighborList, 
+                             f_average_normal : Callable,
+                             f_integrand : Callable):
+    current = coords + disp
+
+    def nodal_shares(segB, neighborSegsA):
+        edgeB = current[segB]
+
+        def pair_shares(indexA):
+            edgeA = current[segmentConnsA[indexA]]
+            projection = compute_intersection(edgeB, edgeA, f_average_normal)
+            first = _integrate_projected(projection, edgeB, edgeA, lambda xiOnB, xiOnA, gap: f_integrand(gap) * (1.0-xiOnB), 1e-9)
+            second = _integrate_projected(projection, edgeB, edgeA, lambda xiOnB, xiOnA, gap: f_integrand(gap) * xiOnB, 1e-9)
+            return jnp.array([first, second])
+
+        return jnp.sum(jax.vmap(pair_shares)(neighborSegsA), axis=0)
+
+    shares = jax.vmap(nodal_shares)(segmentConnsB, neighborList)
+    return jnp.zeros(disp.shape[0]).at[segmentConnsB.ravel()].add(shares.ravel())
+"""
+
+_B_ASSEMBLY_SHARED_PROJECTION_SHAPES = _P_ASSEMBLY_SHARED_PROJECTION.replace("f_integrand(gap) * xiOnB, 1e-9)", "f_integrand(gap) * xiOnA, 1e-9)")
+_B_ASSEMBLY_SHARED_PROJECTION_ORDER = _P_ASSEMBLY_SHARED_PROJECTION.replace("return jnp.array([first, second])", "return jnp.array([second, first])")
+
+
 def _replace_def(name, new_text):
     """edit: replace the whole top-level function `name` by `new_text` (which may define helpers as well)"""
     def f(src):
@@ -2065,7 +2214,21 @@ def _more_variants(Variant, sub, sub_in_func, E, M, P, L, S_, C):
                     "    lengths = [jnp.sqrt(jnp.sum((e[1] - e[0])**2)) for e in (edgeA, edgeB)]\n"
                     "    branches = [lambda : integrate_with_active_mortar(xiA, xiB, g, lengthB=lengths[1], lengthA=lengths[0],\n"
                     "                                                      func_of_xiA_xiB_g=func_of_xiA_xiB_g, relativeSmoothingSize=relativeSmoothingSize),"), None),
+        Variant("active mortar integral: private helper classes (inheritance, property, class constant, keywords)", M,
+                _replace_def("integrate_with_active_mortar", _P_MORTAR_OBJECTS), None),
+        Variant("active mortar integral: one vmap over the stacked end values with out_axes", M, _replace_def("integrate_with_active_mortar", _P_MORTAR_OUT_AXES), None),
+        Variant("mortar assembly: one projection per segment pair shared by both nodal integrands", M,
+                _replace_def("assembly_mortar_integral", _P_ASSEMBLY_SHARED_PROJECTION), None),
         # ---- breaking edits
+        Variant("helper classes: side B measured with its orientation", M, _replace_def("integrate_with_active_mortar", _B_MORTAR_OBJECTS_ORIENTED_B), TW),
+        Variant("helper classes: class-level Gauss degree 1", M, _replace_def("integrate_with_active_mortar", _B_MORTAR_OBJECTS_DEGREE), TW),
+        Variant("helper classes: base __init__ receives the mirrored end values", M, _replace_def("integrate_with_active_mortar", _B_MORTAR_OBJECTS_BASE_INIT), TW),
+        Variant("out_axes form: the two smoothed extents unpacked in the wrong order", M, _replace_def("integrate_with_active_mortar", _B_MORTAR_OUT_AXES_SWAPPED), TW),
+        Variant("out_axes form: xiA and xiB stacked in the wrong columns", M, _replace_def("integrate_with_active_mortar", _B_MORTAR_OUT_AXES_ROWS), TW),
+        Variant("shared projection: second-node share weighted with the coordinate on A", M,
+                _replace_def("assembly_mortar_integral", _B_ASSEMBLY_SHARED_PROJECTION_SHAPES), TA),
+        Variant("shared projection: the two nodal shares returned in the wrong order", M,
+                _replace_def("assembly_mortar_integral", _B_ASSEMBLY_SHARED_PROJECTION_ORDER), TA),
         Variant("common normal 'from A' returns the normal of B", M, sub_in_func("compute_normal_from_a", "    return compute_normal(edgeA)", "    return compute_normal(edgeB)"), TN),
         Variant("average normal as the normalised SUM of the two normals", M, sub_in_func("compute_average_normal", "    normal = nA - nB", "    normal = nA + nB"), TN),
         Variant("average normal not normalised", M, sub_in_func("compute_average_normal", "    return normal / jnp.linalg.norm(normal)", "    return normal"), TN),
